@@ -297,6 +297,11 @@ class Blueprints(yamlize.Object, metaclass=_BlueprintsPluginCollector):
 
             for aDesign in self.assemDesigns:
                 a = aDesign.construct(cs, self)
+                if aDesign.specifier in self._assembliesBySpecifier:
+                    raise ValueError(
+                        f"The specifier `{aDesign.specifier}` of assembly design `{aDesign.name}` is already "
+                        "used by another assembly design; lattice maps could not tell them apart."
+                    )
                 self._assembliesBySpecifier[aDesign.specifier] = a
                 self.assemblies[aDesign.name] = a
 
